@@ -118,6 +118,14 @@ func (it listIterator) Size() int {
 	return it.size
 }
 
+// capSize is Size() bounded by the bytes left, to be used as allocation capacity
+func (it listIterator) capSize() int {
+	if l := it.p.Left(); it.size > l {
+		return l
+	}
+	return it.size
+}
+
 func (it listIterator) Pos() int {
 	return it.k
 }
@@ -148,6 +156,14 @@ func (it mapIterator) HasNext() bool {
 }
 
 func (it mapIterator) Size() int {
+	return it.size
+}
+
+// capSize is Size() bounded by the bytes left, to be used as allocation capacity
+func (it mapIterator) capSize() int {
+	if l := it.p.Left(); it.size > l {
+		return l
+	}
 	return it.size
 }
 
